@@ -51,10 +51,17 @@ Fixpoint has_dup_field (txs : list tx) : bool :=
   | t :: rest => existsb (fun u => N.eqb (fd_name (tx_field u)) (fd_name (tx_field t))) rest || has_dup_field rest
   end.
 
-(* tryCacheIndexingTx: None = nothing is written *)
+(* TxData.Encode: the protobuf codec of the pattern holder refuses a keyword that is not valid UTF-8
+   (proto.Marshal: "string field contains invalid UTF-8"); the other codecs carry numbers only *)
+Definition encodable (t : txdata) : bool :=
+  match t with TxKeywords ks => forallb valid_text ks | _ => true end.
+
+(* tryCacheIndexingTx: None = nothing is written (nothing worth caching, a transaction that does not
+   encode, or two transactions on one field: the function returns before Set) *)
 Definition record_of (thr : nat) (txs : list tx) : option record :=
   if negb (existsb (fun t => better_to_cache thr (tx_data t)) txs) then None
   else if has_dup_field txs then None
+  else if negb (forallb (fun t => encodable (tx_data t)) txs) then None
   else Some (map (fun t => (fd_name (tx_field t), (tx_eid t, encode (tx_data t)))) txs).
 
 (* the pinned tree wrote one slot per field name, later expressions overwriting earlier ones *)
